@@ -65,6 +65,12 @@ class Gen:
             s = z3.Const(self.fresh("b"), ByteSeq)
             self.vars[str(s)] = s
             return w.c_bytes(s), ("bytes", s)
+        if kind == "bytesN":
+            bs = [z3.BitVec(self.fresh("y"), 8) for _ in range(length or 0)]
+            for b in bs:
+                self.vars[str(b)] = b
+            val = w.adt("Constant", "ByteString", VecV(Arr(tuple(BV(b, 8, False) for b in bs))))
+            return val, ("bytesN", bs)
         if kind == "str":
             s = z3.Const(self.fresh("s"), ByteSeq)
             self.vars[str(s)] = s
@@ -142,7 +148,7 @@ class Gen:
 
 def spec_arg(sv):
     k = sv[0]
-    if k in ("int", "bytes", "str", "bool", "any"):
+    if k in ("int", "bytes", "str", "bool", "any", "bytesN"):
         return sv[1]
     if k == "unit":
         return None
@@ -283,13 +289,55 @@ def instantiate(kinds, tier):
             else:
                 ks.append(k)
         dshapes = ["i", "ibig", "ineg", "b", "list0", "list2", "map0", "map1", "constrc0", "constrc2", "constra1"]
-        lens_axes = [range(0, maxlen + 1) if k.startswith("list:") else (dshapes if k == "data" else [None]) for k in ks]
+        lens_axes = [range(0, maxlen + 1) if (k.startswith("list:") or k == "bytesN") else (dshapes if k == "data" else [None]) for k in ks]
         for lens in itertools.product(*lens_axes):
             insts.append((ks, list(lens)))
     return insts
 
 
-def run_call(world: World, ex, fn_call, variant: str, sem: str, argvals, g=None):
+_COSTS = {}
+
+
+def constant_costs(world: World, ex, st):
+    """a BuiltinCosts value where every costing function is ConstantCost(symbolic i64)"""
+    from mirsym.world import sym_struct
+    leaves = {}
+    return sym_struct(world, ex, st, "BuiltinCosts", "costs", leaves, variant_of=lambda en, path: "ConstantCost")
+
+
+def _stub_log2(ex, st, c, args, dty):
+    """integer_log2(i): floor(log2 i) for i > 0, 0 for i = 0 (its own obligation is in C05/sizes).  Exact below 2^64."""
+    from mirsym.summaries import as_big
+    i = as_big(ex, st, args[0]).e
+    a = z3.If(i >= 0, i, -i)
+    exact = z3.IntVal(0)
+    for k in range(1, 64):
+        exact = z3.If(a >= (1 << k), z3.IntVal(k), exact)
+    big = z3.Int(fresh("log2"))
+    st.pc.append(z3.And(big >= 64, big < (1 << 40)))
+    return BV(z3.If(a < (1 << 64), exact, big), 64, True)
+
+
+def _stub_data_mem(ex, st, c, args, dty):
+    r = ex.sym_int(fresh("datamem"), 64, True)
+    st.pc.append(z3.And(ex.to_int_expr(r) >= 4, ex.to_int_expr(r) < (1 << 40)))
+    return r
+
+
+def _stub_mem(ex, st, c, args, dty):
+    # the ExMemoryUsage measures themselves are the subject of C05 (sizes family); here only a non-negative size is needed
+    r = BV(z3.Int(fresh("exmem")), 64, True)
+    st.pc.append(z3.And(r.e >= 0, r.e < (1 << 40)))
+    return r
+
+
+COST_STUBS = {"integer_log2": _stub_log2, "value::integer_log2": _stub_log2, "Value::data_to_ex_mem_inner": _stub_data_mem,
+              "Value::to_ex_mem": _stub_mem, "Value::to_ex_mem_with_semantics": _stub_mem}
+
+
+def run_call(world: World, ex, fn_call, variant: str, sem: str, argvals, g=None, costing=True):
+    """One saturated builtin application as the machine performs it: cost it (BuiltinCosts::to_ex_budget, which also
+    performs the size checks some builtins rely on), then DefaultFunction::call.  Returns (outcomes, state)."""
     st = ex.new_state()
     if g is not None:
         st.pc += list(g.assume)
@@ -299,34 +347,85 @@ def run_call(world: World, ex, fn_call, variant: str, sem: str, argvals, g=None)
     args = ex.alloc(st, Arr(tuple(argvals)))
     traces = ex.alloc(st, VecV(Arr(())))
     selfr = ex.alloc(st, Adt("DefaultFunction", variant, ()))
-    return ex.run(fn_call, [selfr, Adt("BuiltinSemantics", sem, ()), args, traces], st), st
+    outs = []
+    starts = [st]
+    if costing:
+        f_budget = world.fn("BuiltinCosts", "to_ex_budget")
+        costs = ex.alloc(st, constant_costs(world, ex, st))
+        ex.stubs.update(COST_STUBS)
+        couts = ex.run(f_budget, [costs, Adt("DefaultFunction", variant, ()), args, Adt("BuiltinSemantics", sem, ())], st)
+        starts = []
+        for o in couts:
+            if o.kind == "return" and isinstance(o.value, Adt) and o.value.variant == "Ok":
+                s2 = o.state
+                s2.frames = []
+                starts.append(s2)
+            else:
+                if o.kind == "panic":
+                    o.msg = "costing: " + o.msg
+                outs.append(o)  # Err(..) from costing = the application fails; panic / undecided are reported as such
+    for s in starts:
+        outs += ex.run(fn_call, [selfr, Adt("BuiltinSemantics", sem, ()), args, traces], s)
+    return outs, st
 
 
-WRONG = {"int": "bytes", "bytes": "int", "str": "bytes", "bool": "int", "unit": "int", "data": "int"}
+WRONG = {"int": "bytes", "bytes": "int", "bytesN": "int", "str": "bytes", "bool": "int", "unit": "int", "data": "int"}
 DEFAULT_SHAPE = {"data": "i"}
 
 
-def builtin_obligations(world: World, res: Result, tier: str, only_builtin=None):
+_W = {}
+
+
+def _worker(job):
+    """runs all semantics variants of one builtin in a forked worker; returns (obligations, functions)"""
+    name, tier = job
+    world = _W["world"]
+    sub = Result("C04", tier, 0, "model_checking")
+    fn_call = world.fn("DefaultFunction", "call")
+    from specs.cek import variant_of
+    table = _table()
+    kinds, spec = table[name]
+    for sem in SEMANTICS:
+        one_builtin(world, sub, tier, fn_call, name, variant_of(name), kinds, spec, sem)
+    return sub.obligations, sub.functions
+
+
+def _table():
+    table = dict(SB.SPEC)
+    for nm, ks in SB.KINDS_ONLY.items():
+        table.setdefault(nm, (ks, None))
+    return table
+
+
+def builtin_obligations(world: World, res: Result, tier: str, only_builtin=None, jobs=None):
+    import multiprocessing as mp
+    import os
     try:
-        fn_call = world.fn("DefaultFunction", "call")
+        world.fn("DefaultFunction", "call")
         have = {v.name for v in world.variants("DefaultFunction")}
     except Unsupported as e:
         res.add(Obligation("builtin/*", "undecided", str(e)))
         return
-    sems = SEMANTICS
-    table = dict(SB.SPEC)
-    for nm, ks in SB.KINDS_ONLY.items():
-        table.setdefault(nm, (ks, None))
-    for name, (kinds, spec) in table.items():
+    from specs.cek import variant_of
+    names = []
+    for name in _table():
         if only_builtin and only_builtin != name:
             continue
-        from specs.cek import variant_of
-        var = variant_of(name)
-        if var not in have:
-            res.add(Obligation(f"builtin/{name}", "undecided", f"DefaultFunction::{var} not declared in the current sources"))
+        if variant_of(name) not in have:
+            res.add(Obligation(f"builtin/{name}", "undecided", f"DefaultFunction::{variant_of(name)} not declared in the current sources"))
             continue
-        for sem in sems:
-            one_builtin(world, res, tier, fn_call, name, var, kinds, spec, sem)
+        names.append(name)
+    _W["world"] = world
+    jobs = jobs or min(14, os.cpu_count() or 4, max(1, len(names)))
+    if jobs == 1 or len(names) == 1:
+        results = [_worker((n, tier)) for n in names]
+    else:
+        with mp.get_context("fork").Pool(jobs) as pool:
+            results = pool.map(_worker, [(n, tier) for n in names], chunksize=1)
+    for obs, fns in results:
+        for ob in obs:
+            res.add(ob)
+        res.functions.update(fns)
 
 
 def one_builtin(world, res, tier, fn_call, name, var, kinds, spec, sem):
@@ -349,11 +448,14 @@ def one_builtin(world, res, tier, fn_call, name, var, kinds, spec, sem):
                 model.update({"builtin": name, "semantics": sem, "arg_kinds": ks, "shapes": lens})
             bads[key] = (f"{detail} (arg kinds {ks}, lens {lens})", model)
 
+    regions = SB.REGIONS.get(name, [None])
     try:
         if spec is not None:
-            for ks, lens in instantiate(kinds, tier):
+            for (ks, lens), region in itertools.product(instantiate(kinds, tier), regions):
                 g = Gen(world, ex)
                 pairs = [g.value(k, ln) for k, ln in zip(ks, lens)]
+                if region is not None:
+                    g.assume += region(*[spec_arg(sv) for _, sv in pairs])
                 outs, st = run_call(world, ex, fn_call, var, sem, [v for v, _ in pairs], g)
                 cases = spec(sem, *[sv if ok_ == 'elem' else spec_arg(sv) for (_, sv), ok_ in zip(pairs, kinds)])
                 npaths += len(outs)
@@ -363,9 +465,11 @@ def one_builtin(world, res, tier, fn_call, name, var, kinds, spec, sem):
                 n_fail += sum(1 for o in outs if o.kind == "return" and o.value.variant == "Err")
         else:
             # no result specification: only absence of panics on well-typed arguments
-            for ks, lens in instantiate(kinds, tier):
+            for (ks, lens), region in itertools.product(instantiate(kinds, tier), regions):
                 g = Gen(world, ex)
                 pairs = [g.value(k, ln) for k, ln in zip(ks, lens)]
+                if region is not None:
+                    g.assume += region(*[spec_arg(sv) for _, sv in pairs])
                 outs, st = run_call(world, ex, fn_call, var, sem, [v for v, _ in pairs], g)
                 npaths += len(outs)
                 for o in outs:
